@@ -327,7 +327,7 @@ def run_check(prop, tier="quick", seed=0, replay=None):
     # the same property against different trees (VERIF_REPO): steps 1-2 run under one lock so that
     # the obligations are checked against the tables generated from THIS run's tree.
     gen_ok = True
-    with _Lock("pipeline_" + prop.id):
+    with _Lock("pipeline"):   # global: several properties share coq/Gen files (AstCodec, AstDoc, ExcTable)
         try:
             if hasattr(prop, "regenerate"):
                 prop.regenerate(chk)
